@@ -199,7 +199,7 @@ impl Position {
         // TODO: should this return an error if no BBox?
         if let Some(bbox) = self.to_bbox() {
             match element.name.as_str() {
-                "" | "rect" | "use" | "image" | "svg" | "foreignObject" => {
+                "" | "rect" | "box" | "use" | "image" | "svg" | "foreignObject" => {
                     let width = bbox.width();
                     let height = bbox.height();
                     let (x1, y1) = bbox.locspec(LocSpec::TopLeft);
@@ -216,6 +216,13 @@ impl Position {
                     element.remove_attrs(&[
                         "dx", "dy", "dw", "dh", "x1", "y1", "x2", "y2", "cx", "cy", "r",
                     ]);
+                }
+                "point" => {
+                    // a point is located by x / y alone, however its position was spelled
+                    let (x1, y1) = bbox.locspec(LocSpec::TopLeft);
+                    element.set_attr("x", &fstr(x1 + self.dx.unwrap_or(0.)));
+                    element.set_attr("y", &fstr(y1 + self.dy.unwrap_or(0.)));
+                    element.remove_attrs(&["dx", "dy", "x1", "y1", "x2", "y2", "cx", "cy"]);
                 }
                 "g" => {
                     let (x1, y1) = bbox.locspec(LocSpec::TopLeft);
